@@ -189,7 +189,7 @@ fn execute_session(case: &UciCase, spec: &SchedSpec) -> (Outcome, Option<Session
         nodes: r.probe.nodes_total,
         rng_draws: r.rng_draws,
         post_cancel_max: r.probe.post_cancel_nodes_max,
-        cancel_mid_iteration: r.probe.cancel_mid_iteration,
+        cancel_mid_iteration: r.probe.interrupts_observed,
         sleeps: r.sleeps,
         max_workers: r.max_workers_in_iteration,
     });
